@@ -506,6 +506,97 @@ void Executor::addPC(State &s, const z3::expr &c) {
     if (sc.is_not()) s.fact[sc.arg(0).id()] = false; else s.fact[(!sc).simplify().id()] = false;
     if (sc.is_and()) for (unsigned i = 0; i < sc.num_args(); i++) { z3::expr a = sc.arg(i); s.fact[a.id()] = true; if (a.is_not()) s.fact[a.arg(0).id()] = false; }
 }
+// ---- parallel portfolio (second round of heavy queries) ----
+#include <thread>
+#include <atomic>
+#include <mutex>
+#include <condition_variable>
+#include <csignal>
+#include <sys/wait.h>
+#include <unistd.h>
+z3::check_result Executor::parallelCheck(const z3::expr &f, unsigned timeoutMs, z3::model *outModel) {
+    struct Worker { z3::context *ctx = nullptr; z3::check_result res = z3::unknown; bool done = false; Z3_model mdl = nullptr; std::thread th; };
+    const int NW = 3;
+    Worker w[NW];
+    std::mutex mu; std::condition_variable cv; int finished = 0; std::atomic<int> winner(-1);
+    Z3_ast tfs[NW];
+    for (int k = 0; k < NW; k++) { w[k].ctx = new z3::context(); tfs[k] = Z3_translate(*ZC, f, *w[k].ctx); Z3_inc_ref(*w[k].ctx, tfs[k]); }   // all contexts and translations before any worker starts
+    // external solvers on the SMT-LIB text (started before the threads: fork() in a single-threaded process)
+    std::string file = "/tmp/nixsym_q_" + std::to_string(getpid()) + ".smt2";
+    { z3::solver plain(*ZC); plain.add(f); std::ofstream o(file); o << "(set-logic ALL)\n" << plain.to_smt2(); }
+    pid_t pids[2] = {-1, -1}; int fds[2] = {-1, -1};
+    std::string tl0 = "--tlimit=" + std::to_string(timeoutMs), tl1 = "-T:" + std::to_string(timeoutMs / 1000 + 1);
+    for (int e = 0; e < 2; e++) {
+        int pp[2]; if (pipe(pp) != 0) continue;
+        pid_t pid = ::fork();
+        if (pid == 0) {
+            dup2(pp[1], 1); dup2(pp[1], 2); close(pp[0]); close(pp[1]);
+            if (e == 0) execlp("cvc5", "cvc5", "-q", tl0.c_str(), file.c_str(), (char *)nullptr);
+            else execlp("z3-new", "z3-new", tl1.c_str(), file.c_str(), (char *)nullptr);
+            _exit(127);
+        }
+        close(pp[1]); pids[e] = pid; fds[e] = pp[0];
+    }
+    for (int k = 0; k < NW; k++) {
+        Z3_ast tf = tfs[k];
+        w[k].th = std::thread([&, k, tf]() {
+            z3::context &c = *w[k].ctx;
+            z3::check_result rr = z3::unknown;
+            try {
+                z3::expr ff(c, tf);
+                z3::tactic tac = k == 0 ? (z3::tactic(c, "simplify") & z3::tactic(c, "fpa2bv") & z3::tactic(c, "simplify") & z3::tactic(c, "bit-blast") & z3::tactic(c, "sat"))
+                               : k == 1 ? z3::tactic(c, "qffpbv") : z3::tactic(c, "smt");
+                z3::solver so = tac.mk_solver();
+                z3::params p(c); p.set("timeout", timeoutMs); so.set(p);
+                so.add(ff);
+                rr = so.check();
+                if (rr == z3::sat) { z3::model m = so.get_model(); Z3_model_inc_ref(c, m); w[k].mdl = m; }
+            } catch (z3::exception &) { rr = z3::unknown; }
+            std::lock_guard<std::mutex> lk(mu);
+            w[k].res = rr; w[k].done = true; finished++;
+            if (rr != z3::unknown) { int exp = -1; winner.compare_exchange_strong(exp, k); }
+            cv.notify_all();
+        });
+    }
+    z3::check_result result = z3::unknown; int extWinner = -1;
+    auto deadline = std::chrono::steady_clock::now() + std::chrono::milliseconds(timeoutMs + 2000);
+    std::string extOut[2];
+    for (;;) {
+        { std::unique_lock<std::mutex> lk(mu); cv.wait_for(lk, std::chrono::milliseconds(100)); }
+        int wk = winner.load();
+        if (wk >= 0) { result = w[wk].res; break; }
+        // poll the external processes
+        for (int e = 0; e < 2 && extWinner < 0; e++) {
+            if (pids[e] <= 0) continue;
+            int st; pid_t r = waitpid(pids[e], &st, WNOHANG);
+            if (r == pids[e]) {
+                char buf[512]; ssize_t n; while ((n = read(fds[e], buf, sizeof buf)) > 0) extOut[e].append(buf, (size_t)n);
+                close(fds[e]); pids[e] = -1;
+                if (extOut[e].find("(error") == std::string::npos) {
+                    bool un = extOut[e].find("unsat") != std::string::npos, sa = !un && extOut[e].find("sat") != std::string::npos;
+                    if (un) { result = z3::unsat; extWinner = e; }
+                    else if (sa && !outModel) { result = z3::sat; extWinner = e; }
+                }
+            }
+        }
+        if (extWinner >= 0) break;
+        bool allDone; { std::lock_guard<std::mutex> lk(mu); allDone = finished == NW; }
+        if (allDone && pids[0] <= 0 && pids[1] <= 0) break;
+        if (std::chrono::steady_clock::now() > deadline) break;
+    }
+    for (int k = 0; k < NW; k++) w[k].ctx->interrupt();
+    for (int e = 0; e < 2; e++) if (pids[e] > 0) { kill(pids[e], SIGKILL); int st; waitpid(pids[e], &st, 0); close(fds[e]); }
+    for (int k = 0; k < NW; k++) w[k].th.join();
+    int wk = winner.load();
+    if (extWinner < 0 && wk >= 0) {
+        result = w[wk].res; stratWins[wk]++;
+        if (result == z3::sat && outModel && w[wk].mdl) *outModel = z3::model(*ZC, Z3_model_translate(*w[wk].ctx, w[wk].mdl, *ZC));
+    } else if (extWinner >= 0) extWins[extWinner]++;
+    for (int k = 0; k < NW; k++) { if (w[k].mdl) Z3_model_dec_ref(*w[k].ctx, w[k].mdl); delete w[k].ctx; }
+    unlink(file.c_str());
+    return result;
+}
+
 // free variables (uninterpreted constants) of an expression, memoised by expression id
 static std::unordered_map<unsigned, std::shared_ptr<std::vector<unsigned>>> g_varCache;
 static void collectVars(const z3::expr &e, std::set<unsigned> &seen, std::set<unsigned> &out) {
@@ -558,7 +649,7 @@ z3::check_result Executor::check(State &s, const z3::expr &extra, unsigned timeo
         z3::model keep(*ZC);
         struct Try { int strat; unsigned ms; };
         std::vector<Try> plan;
-        if (heavy) plan = {{0, 1500}, {1, 3000}, {2, 1500}, {0, timeoutMs}, {1, timeoutMs}, {2, timeoutMs}};
+        if (heavy) plan = {{0, 1500}, {1, 3000}, {2, 1500}};
         else plan = {{2, timeoutMs}, {0, timeoutMs}};
         unsigned spent = 0;
         for (auto &tr : plan) {
@@ -574,6 +665,16 @@ z3::check_result Executor::check(State &s, const z3::expr &extra, unsigned timeo
             spent += tr.ms;
             if (r == z3::sat && outModel) *outModel = one.get_model();
             if (r != z3::unknown) { stratWins[tr.strat]++; break; }
+        }
+        if (heavy && r == z3::unknown && timeoutMs > 3000) {
+            // second round: the three strategies in parallel threads (each in its own z3 context) plus cvc5 and z3 5.1 as external
+            // processes on the exported SMT-LIB text; the first definite answer wins, the others are interrupted.  An external
+            // "sat" is only used when no model is needed.
+            z3::expr_vector conj(*ZC);
+            for (size_t i = 0; i < s.pc.size(); i++) if (!sliced || take[i]) conj.push_back(s.pc[i]);
+            conj.push_back(extra);
+            z3::expr f = z3::mk_and(conj);
+            r = parallelCheck(f, timeoutMs, outModel);
         }
         if (opt.dumpAll && !opt.dumpDir.empty()) {
             static int na = 0; std::ofstream df(opt.dumpDir + "/q" + std::to_string(na++) + (r == z3::sat ? ".sat" : r == z3::unsat ? ".unsat" : ".unknown") + ".smt2");
